@@ -2,6 +2,7 @@
 package c02
 
 import (
+	"errors"
 	"fmt"
 	"net/http"
 	"net/http/httptest"
@@ -116,6 +117,7 @@ func TestC02_PoolMembership(t *testing.T) {
 		useRebalancer := rapid.Bool().Draw(t, "rebalancer")
 		sticky := rapid.Bool().Draw(t, "sticky")
 		var seenKey string
+		meterFails := false
 		var invoked int
 		var mutate int
 		handler := http.HandlerFunc(func(w http.ResponseWriter, r *http.Request) {
@@ -155,7 +157,12 @@ func TestC02_PoolMembership(t *testing.T) {
 			if err != nil {
 				t.Fatal(err)
 			}
-			rbOpts = append(rbOpts, roundrobin.RebalancerMeter(func() (roundrobin.Meter, error) { return neverReady{}, nil }))
+			rbOpts = append(rbOpts, roundrobin.RebalancerMeter(func() (roundrobin.Meter, error) {
+				if meterFails {
+					return nil, errors.New("meter constructor failed")
+				}
+				return neverReady{}, nil
+			}))
 			rb, err := roundrobin.NewRebalancer(rr, rbOpts...)
 			if err != nil {
 				t.Fatal(err)
@@ -277,9 +284,18 @@ func TestC02_PoolMembership(t *testing.T) {
 				if has {
 					opts = append(opts, roundrobin.Weight(w))
 				}
+				failAdd := useRebalancer && idx < 0 && !(has && w < 0) && rapid.IntRange(0, 5).Draw(t, "meterFails") == 0
+				meterFails = failAdd
 				err := p.UpsertServer(u, opts...)
+				meterFails = false
 				log = append(log, fmt.Sprintf("upsert(%s,%v/%v)=%v", u, w, has, err))
-				if has && w < 0 {
+				if failAdd {
+					// the add failed: it must have changed nothing (checked against the model right below)
+					if err == nil {
+						t.Fatalf("adding %s succeeded although the meter could not be created", u)
+					}
+					ntUnknownRemove = true
+				} else if has && w < 0 {
 					if err == nil {
 						t.Fatalf("upsert with negative weight succeeded\nhistory: %s", strings.Join(log, "; "))
 					}
@@ -342,6 +358,19 @@ func TestC02_PoolMembership(t *testing.T) {
 				}
 				log = append(log, fmt.Sprintf("request(http=%v,cookie=%q,mut=%d)", viaHTTP, cookie, mut))
 				request(viaHTTP, cookie, mut)
+			case 8: // drain every member, then several requests: each must fail
+				for j := range m.es {
+					u, _ := url.Parse(m.es[j].spell)
+					if err := p.UpsertServer(u, roundrobin.Weight(0)); err != nil {
+						t.Fatalf("upsert: %v", err)
+					}
+					m.es[j].w = 0
+					m.es[j].updates++
+				}
+				log = append(log, "drain-all")
+				for k := rapid.IntRange(1, 4).Draw(t, "drainedReqs"); k > 0; k-- {
+					request(rapid.Bool().Draw(t, "viaHTTP"), "", 0)
+				}
 			default: // rotation
 				sum, g := 0, 0
 				for _, e := range m.es {
